@@ -3,6 +3,7 @@ import RulioProofs.Query
 /-! # Lemmas for C04 (each action exactly once) -/
 
 namespace EventsProofs
+open QSpec
 open QueryProofs
 
 /-! ## `runUntil` -/
@@ -834,5 +835,12 @@ theorem actsOf_echo (r : RuleM) (out : List Bs) (h : ∀ a ∈ r.actions, isEcho
   apply List.map_congr_left
   intro a ha
   exact actNodeOf_ok b a _ (execAction_echo a b (h a ha))
+
+theorem no_err_dispatch (srch : Srch) (loc : String) (ev : Obj) (cands : List (String × RuleM × Bool))
+    (h : (processEvent srch loc ev cands).err = none) : ∃ disp, dispatch ev cands = .ok disp := by
+  rw [processEvent_eq] at h
+  cases hd : dispatch ev cands with
+  | error e => rw [hd] at h; cases h
+  | ok disp => exact ⟨disp, rfl⟩
 
 end EventsProofs
